@@ -473,3 +473,77 @@ def run_r8(run, rule='R8'):
         else:
             check_accessor(run, f)
     check_reach_helpers(run)
+
+
+# ---------------------------------------------------------------------------------------------------------------- accessor slots
+# what "rotation part", "translation" and the named columns of a pose ARE: the slot of the value matrix each accessor reads.  The
+# branch-agreement clause of check_accessor only compares the one-value arm with the many-values arm; this table fixes both.
+SLOTS = {
+    'pose3d:SO3.R': (':3, :3', 'rotation part', ('t2r(_X)',)),
+    'pose3d:SO3.n': (':3, 0', 'normal vector (first column of the rotation part)', ()),
+    'pose3d:SO3.o': (':3, 1', 'orientation vector (second column of the rotation part)', ()),
+    'pose3d:SO3.a': (':3, 2', 'approach vector (third column of the rotation part)', ()),
+    'pose3d:SE3.t': (':3, 3', 'translation (last column above the bottom row)', ('transl(_X)',)),
+    'pose2d:SO2.R': (':2, :2', 'rotation part', ('t2r(_X)',)),
+    'pose2d:SE2.t': (':2, 2', 'translation (last column above the bottom row)', ('transl2(_X)',)),
+}
+
+
+def check_accessor_slots(run, rule='R8'):
+    from ..terms import Normaliser
+    prog = run.prog
+    nm = Normaliser()
+    for key, (want, what, alts) in SLOTS.items():
+        f = prog.func(key)
+        fi = FuncInfo.of(f)
+        s = f.selfname
+        # names that hold ONE value matrix: comprehension / loop variables over self.A, self.data (arrays) -- and x.A for x over self
+        elems, objs = set(), set()
+        for n in own_walk(f.node):
+            gens = n.generators if isinstance(n, (ast.ListComp, ast.GeneratorExp)) else []
+            its = [(g.target, g.iter) for g in gens] + ([(n.target, n.iter)] if isinstance(n, ast.For) else [])
+            for t, it in its:
+                if not isinstance(t, ast.Name):
+                    continue
+                if isinstance(it, ast.Attribute) and isinstance(it.value, ast.Name) and it.value.id == s and it.attr in ('A', 'data', '_A'):
+                    elems.add(t.id)
+                elif isinstance(it, ast.Name) and it.id == s:
+                    objs.add(t.id)
+
+        def is_value(e):
+            if isinstance(e, ast.Name):
+                return e.id in elems
+            if isinstance(e, ast.Attribute) and e.attr in ('A', '_A') and isinstance(e.value, ast.Name):
+                return e.value.id == s or e.value.id in objs
+            if isinstance(e, ast.Subscript) and isinstance(e.value, ast.Attribute) and e.value.attr == 'data' and \
+                    isinstance(e.value.value, ast.Name) and e.value.value.id == s and isinstance(e.slice, ast.Constant):
+                return True
+            return False
+        found = 0
+        bad = None
+        for n in own_walk(f.node):
+            if isinstance(n, ast.Subscript) and is_value(n.value) and isinstance(n.slice, ast.Tuple) and len(n.slice.elts) == 2:
+                try:
+                    got = nm.slice_str(n.slice)
+                except Exception:
+                    continue
+                if '-' in got:
+                    continue                  # an index counted from the end: the size is not known here
+                found += 1
+                if got != want and bad is None:
+                    bad = (n, got)
+        if bad is not None:
+            run.violation(rule, key, 'slot of the ' + what, 'the accessor reads [%s] of the value matrix; the %s is [%s]' % (bad[1], what, want),
+                          f=f, node=bad[0])
+            continue
+        if not found:
+            ok = False
+            for n in own_walk(f.node):
+                if isinstance(n, ast.Call):
+                    e = canon(fi, n)
+                    if any(matches(a, e) is not None for a in alts):
+                        ok = True
+            if not ok:
+                run.error('%s: %s reads no constant slot of the value matrix (expected [%s])' % (rule, key, want))
+                continue
+        run.holds(rule, key, 'slot of the ' + what, 'every read of the value matrix takes [%s]' % want, f=f)
